@@ -28,7 +28,8 @@ VARIABLES kind,        \* "plain": Server, "tls": ServerTls (fixed)
           nconn,       \* connections arrived so far
           ixes,        \* address -> connection in the table of ready connections (0: none)
           cxes,        \* address -> connection whose TLS handshake is still going on (0: none)
-          down,        \* connections whose socket was shut down (or closed) by the server
+          down,        \* connections whose socket the server shut down (the shutdown reached the socket, whatever it
+                       \* answered) or closed
           closed,      \* connections whose socket was closed by closeIx / removeIx / after a lost handshake
           peerclosed,  \* connections whose peer closed
           cut,         \* connections the server has seen to be cut off (a service call read the end of stream)
@@ -39,6 +40,10 @@ VARIABLES kind,        \* "plain": Server, "tls": ServerTls (fixed)
                        \* entry), "served" (a service call returned normally)
 vars == <<kind, pending, nconn, ixes, cxes, down, closed, peerclosed, cut, removed, replaced, lost, res>>
 
+\* What the socket of a connection answers when the server shuts it down: a stale connection's socket often refuses
+\* (the far side is gone, the descriptor is bad, ...).  The statement's promises - a repeated address replaces the stale
+\* entry without raising, removing closes - hold whatever that answer is ("noerrno": a socket.error without errno).
+ShutAnswers == {"ok", "ENOTCONN", "EBADF", "ECONNRESET", "EPIPE", "noerrno"}
 NoH == [x \in Addrs |-> "na"]
 Answers == [Addrs -> {"ok", "want", "lost", "na"}]
 
@@ -93,8 +98,17 @@ Accepting(h) ==
          /\ replaced' = replaced \cup r.drop \cup stale /\ down' = down \cup r.drop \cup stale \cup dead
          /\ closed' = closed \cup dead /\ lost' = lost \cup dead
 
+\* the connections a service call with handshake answers h drops from the tables in favour of newer ones
+DropSet(h) ==
+    IF kind = "plain" THEN AcceptAll(pending, ixes, {}).drop
+    ELSE LET r == AcceptAll(pending, cxes, {}) IN
+         r.drop \cup {ixes[a] : a \in {b \in Addrs : r.tab[b] # 0 /\ h[b] = "ok" /\ ixes[b] # 0}}
+\* sd: what the sockets of the dropped connections answer to shutdown ("ok" when nothing open is dropped in this call)
+ShutChoice(h, sd) == sd = "ok" \/ (DropSet(h) \ closed) # {}
+
 \* serviceConnects(): accept everything that waits (TLS: and service the handshakes); never raises
-ServiceConnects(h) ==
+ServiceConnects(h, sd) ==
+    /\ ShutChoice(h, sd)
     /\ Accepting(h)
     /\ pending' = <<>>
     /\ res' = "served"
@@ -103,8 +117,9 @@ ServiceConnects(h) ==
 \* serviceAll(): serviceConnects, then receive and transmit on every ready connection: a connection whose peer closed is
 \* seen to be cut off.  (What servicing does to an entry whose socket the application closed with closeIx but left in the
 \* table is not documented: the model does not take this step then.)
-ServiceAll(h) ==
+ServiceAll(h, sd) ==
     /\ \A a \in Addrs : ixes[a] \notin closed
+    /\ ShutChoice(h, sd)
     /\ Accepting(h)
     /\ pending' = <<>>
     /\ cut' = cut \cup {ixes'[a] : a \in {b \in Addrs : ixes'[b] \in peerclosed}}
@@ -127,19 +142,22 @@ CloseIx(ca) == /\ IF ixes[ca] = 0 THEN Invalid
                        /\ UNCHANGED <<ixes, removed>>
                /\ Same
 
-Remove(ca) == /\ IF ixes[ca] = 0 THEN Invalid
-                 ELSE /\ down' = down \cup {ixes[ca]} /\ closed' = closed \cup {ixes[ca]} /\ removed' = removed \cup {ixes[ca]}
-                      /\ ixes' = [ixes EXCEPT ![ca] = 0]
-                      /\ res' = "ok"
-              /\ Same
+\* sd: the answer of the entry's socket to the shutdown that precedes its close ("ok" when there is nothing to shut down)
+Remove(ca, sd) ==
+    /\ sd = "ok" \/ (ixes[ca] # 0 /\ ixes[ca] \notin closed)
+    /\ IF ixes[ca] = 0 THEN Invalid
+       ELSE /\ down' = down \cup {ixes[ca]} /\ closed' = closed \cup {ixes[ca]} /\ removed' = removed \cup {ixes[ca]}
+            /\ ixes' = [ixes EXCEPT ![ca] = 0]
+            /\ res' = "ok"
+    /\ Same
 
 Next == \/ \E ca \in Addrs : Arrive(ca)
         \/ \E ca \in Addrs : PeerClose(ca)
         \/ \E ca \in Addrs : ShutdownIx(ca)
         \/ \E ca \in Addrs : CloseIx(ca)
-        \/ \E ca \in Addrs : Remove(ca)
-        \/ \E h \in Answers \cup {NoH} : ServiceConnects(h)
-        \/ \E h \in Answers \cup {NoH} : ServiceAll(h)
+        \/ \E ca \in Addrs, sd \in ShutAnswers : Remove(ca, sd)
+        \/ \E h \in Answers \cup {NoH}, sd \in ShutAnswers : ServiceConnects(h, sd)
+        \/ \E h \in Answers \cup {NoH}, sd \in ShutAnswers : ServiceAll(h, sd)
 Spec == Init /\ [][Next]_vars
 
 (* ---------------- properties ---------------- *)
